@@ -297,14 +297,19 @@ def eprobe9 (b dim i c : Nat) : GInt :=
   -- the second assignment of the source overwrites the first when both hit the same column (never for even dim ≥ 2)
   if c = q then v else if c = p then 1 else 0
 
-/-- exact test: the rows of `B_{b+1}` are orthonormal (`Σ_c conj(B i c) B j c = 2 δ_ij` for the scaled entries) and complete
+/-- exact test (`eprobe9Unitary = eprobe9RowsOK && eprobe9ColsOK`): the rows of `B_{b+1}` are orthonormal (`Σ_c conj(B i c) B j c = 2 δ_ij` for the scaled entries) and complete
 (`Σ_i B i c conj(B i c') = 2 δ_cc'`), so `Σ_i |b_i⟩⟨b_i| = 1` -/
-def eprobe9Unitary (b dim : Nat) : Bool :=
+def eprobe9RowsOK (b dim : Nat) : Bool :=
   let idx := List.range dim
   (idx.all fun i => idx.all fun j =>
-    (idx.foldl (fun acc c => acc + conj (eprobe9 b dim i c) * eprobe9 b dim j c) (0 : GInt)) == (if i = j then ⟨2, 0⟩ else 0)) &&
+    (idx.foldl (fun acc c => acc + conj (eprobe9 b dim i c) * eprobe9 b dim j c) (0 : GInt)) == (if i = j then ⟨2, 0⟩ else 0))
+
+def eprobe9ColsOK (b dim : Nat) : Bool :=
+  let idx := List.range dim
   (idx.all fun c => idx.all fun c' =>
     (idx.foldl (fun acc i => acc + eprobe9 b dim i c * conj (eprobe9 b dim i c')) (0 : GInt)) == (if c = c' then ⟨2, 0⟩ else 0))
+
+def eprobe9Unitary (b dim : Nat) : Bool := eprobe9RowsOK b dim && eprobe9ColsOK b dim
 
 /-! ### unextendible product bases (`entangle/upb.py`) -/
 
